@@ -111,7 +111,7 @@ pub enum Obs {
 	Reconnected { a: usize, b: usize },
 	/// Node restarted from (manager bytes, chosen monitor snapshots). `chosen` = (channel, latest update id
 	/// of the monitor snapshot loaded); `lost_delivery` = the message being handled when the crash hit.
-	Restarted { node: usize, chosen: Vec<(ChannelId, u64)>, lost_delivery: Option<(usize, Wire)>, mgr_known_ids: Vec<(ChannelId, u64)> },
+	Restarted { node: usize, chosen: Vec<(ChannelId, u64)>, lost_delivery: Option<(usize, Wire)>, mgr_known_ids: Vec<(ChannelId, u64)>, mgr_known_open: Vec<ChannelId> },
 	Completed { node: usize, chan: ChannelId, id: u64 },
 	/// An `ErrorAction` other than a wire message (ignore/log).
 	ErrorAction { from: usize, to: usize, what: String },
@@ -160,9 +160,16 @@ pub struct World {
 	pub trace: Vec<String>,
 	pub funding_txs: Vec<Transaction>,
 	pub swept_txs: Vec<(usize, Transaction)>,
+	/// when set, a node that intercepts an HTLC forwards it on with this much skimmed off (LSP-style)
+	pub intercept_skim_msat: Option<u64>,
+	pub bogus_reestablish: BTreeMap<(usize, usize), u32>,
+	/// per node: manager writes suspended (the durable manager lags behind)
+	pub manager_write_held: Vec<bool>,
 	/// per node: last update id handed to Persist per channel (live), and as of the last manager write
 	pub live_ids: Vec<BTreeMap<ChannelId, u64>>,
 	pub mgr_known_ids: Vec<BTreeMap<ChannelId, u64>>,
+	/// per node: channels that were open in the manager when it was last written
+	pub mgr_known_open: Vec<Vec<ChannelId>>,
 }
 
 pub fn init_msg(features: lightning::types::features::InitFeatures) -> Init {
@@ -194,8 +201,12 @@ impl World {
 			trace: Vec::new(),
 			funding_txs: Vec::new(),
 			swept_txs: Vec::new(),
+			intercept_skim_msat: None,
+			bogus_reestablish: BTreeMap::new(),
+			manager_write_held: vec![false; n],
 			live_ids: vec![BTreeMap::new(); n],
 			mgr_known_ids: vec![BTreeMap::new(); n],
+			mgr_known_open: vec![Vec::new(); n],
 		}
 	}
 
@@ -277,9 +288,10 @@ impl World {
 		}
 		for i in 0..self.nodes.len() {
 			if self.nodes[i].cm.get_and_clear_needs_persistence() {
-				if self.eager_manager_persist {
+				if self.eager_manager_persist && !self.manager_write_held[i] {
 					self.nodes[i].write_manager();
 					self.mgr_known_ids[i] = self.live_ids[i].clone();
+					self.mgr_known_open[i] = self.nodes[i].cm.list_channels().iter().map(|c| c.channel_id).collect();
 				} else {
 					self.manager_dirty[i] = true;
 				}
@@ -364,6 +376,20 @@ impl World {
 	}
 
 	pub fn deliver_wire(&mut self, from: usize, to: usize, w: Wire) {
+		// Two LDK nodes that have both forgotten a channel answer each other's "bogus"
+		// channel_reestablish (all-zero commitment numbers, sent to make lnd force-close) with another
+		// bogus channel_reestablish forever. That loop is outside the 20 properties; the harness cuts
+		// it after two rounds per link so that executions terminate (recorded as a witness).
+		if let Wire::Reestablish(m) = &w {
+			if m.next_local_commitment_number == 0 && m.next_remote_commitment_number == 0 && m.your_last_per_commitment_secret == [1u8; 32] {
+				let c = self.bogus_reestablish.entry((from, to)).or_insert(0);
+				*c += 1;
+				if *c > 2 {
+					crate::runner::witness("bogus-reestablish-ping-pong-cut");
+					return;
+				}
+			}
+		}
 		let fid = self.nodes[from].id;
 		self.obs.push(Obs::Delivered { from, to, wire: w.clone() });
 		{
@@ -444,6 +470,17 @@ impl World {
 				Event::OpenChannelRequest { temporary_channel_id, counterparty_node_id, .. } => {
 					let r = self.nodes[n].cm.accept_inbound_channel(&temporary_channel_id, &counterparty_node_id, 7, None);
 					self.obs.push(Obs::Api { node: n, what: "accept_inbound_channel".into(), ok: r.is_ok(), detail: format!("{:?}", r) });
+				},
+				Event::HTLCIntercepted { intercept_id, expected_outbound_amount_msat, .. } => {
+					if let Some(skim) = self.intercept_skim_msat {
+						// forward over the channel to the next node in the line
+						let next = self.nodes[n + 1].id;
+						let cid = self.nodes[n].cm.list_channels().iter().find(|c| c.counterparty.node_id == next).map(|c| c.channel_id);
+						if let Some(cid) = cid {
+							let r = self.nodes[n].cm.forward_intercepted_htlc(intercept_id, &cid, next, expected_outbound_amount_msat - skim);
+							self.obs.push(Obs::Api { node: n, what: "forward_intercepted_htlc".into(), ok: r.is_ok(), detail: format!("{:?}", r) });
+						}
+					}
 				},
 				Event::BumpTransaction(bev) => {
 					self.nodes[n].bumper.handle_event(&bev);
@@ -850,6 +887,7 @@ impl World {
 			chosen: chosen.iter().map(|(c, s)| (*c, s.monitor_update_id)).collect(),
 			lost_delivery,
 			mgr_known_ids: self.mgr_known_ids[n].iter().map(|(c, i)| (*c, *i)).collect(),
+			mgr_known_open: self.mgr_known_open[n].clone(),
 		});
 		// connections drop
 		for o in 0..self.nodes.len() {
